@@ -118,7 +118,10 @@ pub open spec fn within_limit_since<R: io::BufRead>(c: BufReadCounter<R>, base: 
 /// and every consume preserved it) the bytes consumed since the reset are bounded.
 pub proof fn lemma_limit_plus_one_buffer<R: io::BufRead>(c: BufReadCounter<R>, base: nat)
     requires within_limit_since(c, base), limit_effective(c),
-    ensures c.reader.consumed() - base <= c.limit + c.reader.max_buf(),
+    ensures
+        c.reader.consumed() - base <= c.limit + c.reader.max_buf(),
+        // even counting what the inner reader has fetched into its buffer but not yet handed on
+        c.reader.consumed() + c.reader.avail() - base <= c.limit + c.reader.max_buf(),
 {}
 
 /// once more than `limit` bytes were consumed since the reset, fill_buf refuses (no further buffer)
